@@ -193,8 +193,15 @@ func queryTable(c *Ctx, rule string) {
 		for k, v := range map[string]bool{"GLOB": rw.glob, "EMPTY": rw.kind == "empty", "NOCHILD": !rw.child} {
 			b["!"+k] = !v
 		}
+		if rw.plen == 1 {
+			rw.want = strings.Replace(rw.want, "/path[1:]/", "/exhausted/", 1) // the empty tail slice is an exhausted path
+		}
 		// a branch is replayed with exactly two children: every loop over them runs twice
-		at := &Atoms{Class: cls, Bool: b, Int: map[string]int64{"PLEN": rw.plen, "len(CHILDREN)": 2}}
+		nch := int64(2)
+		if rw.kind != "branch" {
+			nch = 0 // the child map of a node that is not a branch is the nil map: ranging it yields nothing
+		}
+		at := &Atoms{Class: cls, Bool: b, Int: map[string]int64{"PLEN": rw.plen, "len(CHILDREN)": nch}}
 		e := &PPA{Cond: at.Cond, MaxVisits: 4, Watch: func(ev *Ev) bool { return isRec(ev) || isVisit(ev) }}
 		e.Run(qi)
 		c.Paths += len(e.Paths)
@@ -213,7 +220,12 @@ func queryTable(c *Ctx, rule string) {
 			for j := range p.Trace {
 				ev := &p.Trace[j]
 				if isRec(ev) {
-					got = append(got, describe(ev))
+					d := describe(ev)
+					// with one element left, path[1:] is the empty slice: the path is exhausted below
+					if rw.plen == 1 {
+						d = strings.Replace(d, "/path[1:]/", "/exhausted/", 1)
+					}
+					got = append(got, d)
 				}
 				if isVisit(ev) {
 					visits++
@@ -380,6 +392,7 @@ func addAtomic(c *Ctx, rule string) {
 // accessors (shared by C09 - lookups report stored leaves only - and C10 - the children map is
 // never handed out, so it cannot be read or ranged without the node's lock).
 func ctreeExposure(c *Ctx, rule string) {
+	innerContent := map[*ssa.Function]map[int]bool{} // unexported helper -> result positions that carry node content
 	P := c.P
 	fLB := P.Field("ctree", "Tree", "leafBranch")
 	tv := P.Method("ctree", "Tree", "Value")
@@ -415,9 +428,21 @@ func ctreeExposure(c *Ctx, rule string) {
 				return false
 			case *ssa.TypeAssert:
 				return w(x.X, d+1)
+			case *ssa.Call:
+				// the (single) result of an unexported helper of the package that itself hands back content
+				if g := staticCallee(&x.Call); g != nil && innerContent[g][0] && g.Signature.Results().Len() == 1 {
+					return true
+				}
+				return false
 			case *ssa.Extract:
 				if _, isTA := x.Tuple.(*ssa.TypeAssert); isTA && x.Index != 0 {
 					return false // the ok flag is not content
+				}
+				if call, isCall := x.Tuple.(*ssa.Call); isCall {
+					if g := staticCallee(&call.Call); g != nil {
+						return innerContent[g][x.Index]
+					}
+					return false
 				}
 				return w(x.Tuple, d+1)
 			case *ssa.MakeInterface:
@@ -435,9 +460,30 @@ func ctreeExposure(c *Ctx, rule string) {
 		}
 		return w(v, 0)
 	}
+	// unexported helpers that hand content to their callers inside the package (under the caller's lock): what
+	// matters is whether an exported function passes it on - computed to a fixpoint
+	for round := 0; round < 3; round++ {
+		for _, f := range P.PkgFuncs("ctree") {
+			if P.InTestFile(f) || f.Parent() != nil || isExportedFn(f) {
+				continue
+			}
+			instrs(f, func(in ssa.Instruction) {
+				if ret, ok := in.(*ssa.Return); ok {
+					for ri, rv := range ret.Results {
+						if derives(rv) {
+							if innerContent[f] == nil {
+								innerContent[f] = map[int]bool{}
+							}
+							innerContent[f][ri] = true
+						}
+					}
+				}
+			})
+		}
+	}
 	nRet := 0
 	for _, f := range P.PkgFuncs("ctree") {
-		if P.InTestFile(f) {
+		if P.InTestFile(f) || len(innerContent[f]) > 0 {
 			continue
 		}
 		instrs(f, func(in ssa.Instruction) {
